@@ -348,10 +348,10 @@ def self_test(ctx, variant, paths, macro_sep=True):
 GENERIC = {
     # prop: (quick sizes, thorough sizes, events)
     "C01": dict(q=dict(cover_n=1200, soup_n=5000, trunc_n=800, mb_n=300, gen_n=4000), t=dict(cover_n=-1, soup_n=60000, trunc_n=6000, mb_n=3000, corpus_trunc=400), events=True),
-    "C02": dict(q=dict(cover_n=1200, soup_n=4000, trunc_n=300, mb_n=800), t=dict(cover_n=-1, soup_n=50000, trunc_n=4000, mb_n=8000), events=True),
-    "C03": dict(q=dict(cover_n=1200, soup_n=3000, mb_n=2500, trunc_n=200), t=dict(cover_n=-1, soup_n=40000, mb_n=30000, trunc_n=2000), events=True),
-    "C04": dict(q=dict(cover_n=1200, soup_n=3000, lf_n=1200, mb_n=300), t=dict(cover_n=-1, soup_n=40000, lf_n=15000, mb_n=3000), events=True),
-    "C05": dict(q=dict(cover_n=1200, soup_n=3000, lf_n=1200, mb_n=300), t=dict(cover_n=-1, soup_n=40000, lf_n=15000, mb_n=3000), events=False),
+    "C02": dict(q=dict(cover_n=1200, soup_n=4000, trunc_n=300, mb_n=800, extra=dict(sep_family=1500)), t=dict(cover_n=-1, soup_n=50000, trunc_n=4000, mb_n=8000, extra=dict(sep_family=20000)), events=True),
+    "C03": dict(q=dict(cover_n=1200, soup_n=3000, mb_n=2500, trunc_n=200, extra=dict(sep_family=1500)), t=dict(cover_n=-1, soup_n=40000, mb_n=30000, trunc_n=2000, extra=dict(sep_family=20000)), events=True),
+    "C04": dict(q=dict(cover_n=1200, soup_n=3000, lf_n=1200, mb_n=300, extra=dict(sep_family=1500)), t=dict(cover_n=-1, soup_n=40000, lf_n=15000, mb_n=3000, extra=dict(sep_family=20000)), events=True),
+    "C05": dict(q=dict(cover_n=1200, soup_n=3000, lf_n=1200, mb_n=300, extra=dict(sep_family=1500)), t=dict(cover_n=-1, soup_n=40000, lf_n=15000, mb_n=3000, extra=dict(sep_family=20000)), events=False),
     "C06": dict(q=dict(cover_n=1200, soup_n=5000, trunc_n=400, mb_n=500, case_n=300), t=dict(cover_n=-1, soup_n=60000, trunc_n=5000, mb_n=5000, case_n=3000), events=False),
     "C07": dict(q=dict(cover_n=1200, soup_n=3000, trunc_n=300, mb_n=300, extra=dict(string_family=5000)), t=dict(cover_n=-1, soup_n=30000, trunc_n=3000, mb_n=3000, extra=dict(string_family=80000)), events="all"),
     "C08": dict(q=dict(soup_n=2000, extra=dict(num_family=6000)), t=dict(soup_n=20000, extra=dict(num_family=150000)), events=False),
@@ -398,6 +398,8 @@ def run_generic(ctx):
             ctx.prop, variant, mon["records"], mon["wall"], len(mon["verdicts"])))
         if variant == "dbg":
             self_test(ctx, variant, paths)
+            if ctx.prop in ("C10", "C11"):
+                model_leg(ctx, paths, "M" + ctx.prop[1:])
     return finish(ctx, "model_checking", RULES["generic"],
                   ["position tables (byte offset, line, column per code point) come from the harness and are "
                    "re-derived locally by the TLA+ predicate CertOK before use",
@@ -794,7 +796,7 @@ def run_c15(ctx):
 
 CLASS_CHAR = {1: "\u00a0", 2: "\u00e9", 3: "\u0301", 4: "\U0001F525", 5: "\u00ac", 6: "\u00a6", 7: "\u2218"}
 FRAGSETS = ["open", "macrostat", "call", "eval", "str"]
-COVER_DIR = os.path.join(common.WORK, "cover")
+COVER_DIR = os.path.join(common.VERIF, "work", "cover")
 
 MC_CFG = """SPECIFICATION Spec
 %(view)s
@@ -1093,6 +1095,7 @@ def run_gen_prop(ctx):
             ctx.prop, variant, mon["records"], mon["wall"], len(mon["verdicts"])))
         if variant == "dbg":
             self_test(ctx, variant, paths)
+            model_leg(ctx, paths, "M" + ctx.prop[1:])
     rule = ("programs are derivations of the construct grammar spec/Gen.tla (DESIGN.md 7.6), produced by TLC: random "
             "derivations (-simulate, several fuel bounds) and all derivations with a small fuel bound; each carries the "
             "generator's expectations%s; the real lexer runs on each and TLC evaluates the %s clauses of "
@@ -1100,6 +1103,27 @@ def run_gen_prop(ctx):
     return finish(ctx, "model_checking", rule,
                   ["the grammar is deliberately conservative (DESIGN.md 7.6 and section 12)",
                    "position tables come from the harness and are re-derived by CertOK"])
+
+
+def model_leg(ctx, paths, mprop):
+    """Design level: the same clauses evaluated by TLC on the operational model's own result for the text of every
+    record (spec/TraceConf.tla ModelRec), plus agreement of the final results of model and implementation (MSAME).
+    A failure here is a statement about the model (or drift), never a verdict about the code: it is recorded in
+    the evidence and printed, and does not change the exit code."""
+    out = {}
+    for prop in (mprop, "MSAME"):
+        mon = common.monitor(prop, paths, ctx.dir, workers_each=2, parallel=8)
+        ctx.states += mon["states"]
+        ctx.transitions += mon["transitions"]
+        byc = {}
+        for cid, clause, cnt, wit in mon["verdicts"]:
+            byc.setdefault(clause, []).append(cid)
+        out[prop] = {"records": mon["records"], "skipped": len(mon["skipped"]),
+                     "failing_clauses": {k: {"count": len(v), "first": [ctx.cases[c]["src"][:120] for c in v[:3] if c in ctx.cases]}
+                                         for k, v in byc.items()}}
+        log("[%s] model leg %s: %d records, %s" % (ctx.prop, prop, mon["records"],
+            "all clauses hold on the model" if not byc else "MODEL-LEVEL failures (drift, not a verdict): %s" % {k: len(v) for k, v in byc.items()}))
+    ctx.extra["design_level_on_model"] = out
 
 
 def run_conf(ctx):
@@ -1152,7 +1176,7 @@ def run_c20(ctx):
     pyrun = os.path.join(common.VERIF, "pyharness", "pyrun.py")
     # a fixed path: the binding's build script bakes its manifest directory in at compile time, and cargo
     # would re-run a stale build-script binary (pointing at a deleted copy) if the path changed between runs
-    scratch = "/tmp/verif-c20-scratch"
+    scratch = "/tmp/verif-c20-scratch" + ("-alt" if common.ALT_REPO else "")
     shutil.rmtree(scratch, ignore_errors=True)
     os.makedirs(scratch)
     try:
